@@ -78,11 +78,18 @@ def sv_worker(job: dict) -> dict:
         if nm is not None:
             kw["noise_model"] = nm
         psi0 = None
-        if job.get("init") == "random":
+        rho0_mixed = None
+        if job.get("init") in ("random", "mixed"):
             v = rng.normal(size=2**n) + 1j * rng.normal(size=2**n)
             v /= np.linalg.norm(v)
             psi0 = v
-            if lind:
+            if lind and job["init"] == "mixed":
+                w = rng.normal(size=2**n) + 1j * rng.normal(size=2**n)
+                w /= np.linalg.norm(w)
+                p_ = float(rng.uniform(0.3, 0.7))
+                rho0_mixed = p_ * np.outer(v, v.conj()) + (1 - p_) * np.outer(w, w.conj())
+                kw["initial_state"] = DensityMatrix(torch.tensor(rho0_mixed, dtype=torch.complex128), gpu=False)
+            elif lind:
                 kw["initial_state"] = DensityMatrix(torch.tensor(np.outer(v, v.conj()), dtype=torch.complex128), gpu=False)
             else:
                 kw["initial_state"] = StateVector(torch.tensor(v, dtype=torch.complex128), gpu=False)
@@ -98,14 +105,28 @@ def sv_worker(job: dict) -> dict:
         _verif.reset()
         _verif.set_sink(ev)
         try:
+            if job.get("twice"):
+                # the same configuration object feeds more than one run (as with several trajectories, or a user calling
+                # run() again): the run under test is the SECOND one
+                SVBackend(seq, config=cfg).run()
+                ev.clear()
+                _verif.reset()
             res = SVBackend(seq, config=cfg).run()
         finally:
             _verif.set_sink(None)
         out["stage"] = "reference"
         # ---- exact piecewise-constant evolution on the EMITTED rows (first sentence of C01 / C16)
         slm_end = float(seq._slm_mask_time[1]) if len(seq._slm_mask_time) > 1 else 0.0
-        full = np.asarray(data.interaction_matrix(1e18).detach().numpy(), dtype=float)
-        masked = np.asarray(data.interaction_matrix(-1.0).detach().numpy(), dtype=float)
+        # interaction matrices from the REGISTER (independent of the adapter): C6 / r^6, SLM-masked atoms decoupled
+        full = seqs.ref_interaction(seq, "rydberg")
+        cut = float(job.get("cutoff", 0.0))
+        full[np.abs(full) < cut] = 0.0
+        masked = full.copy()
+        ids_ = [str(q) for q in seq.register.qubit_ids]
+        for q in getattr(seq, "_slm_mask_targets", []) or []:
+            j_ = ids_.index(str(q))
+            masked[j_, :] = 0.0
+            masked[:, j_] = 0.0
 
         def allowed_mats(k: int) -> list[np.ndarray]:
             a, b = T[k], T[k + 1]
@@ -118,13 +139,17 @@ def sv_worker(job: dict) -> dict:
         steps = [e for e in ev if e["ev"] == "sv_step"]
         used_mats = []
         for k in range(K):
-            if k < len(steps):
-                used_mats.append(np.asarray(steps[k]["matrix"], dtype=float))
-            else:
-                used_mats.append(allowed_mats(k)[0])
+            cands = allowed_mats(k)
+            pick = cands[0]
+            if k < len(steps) and len(cands) > 1:
+                m_ = np.asarray(steps[k]["matrix"], dtype=float)
+                for c_ in cands:      # a step straddling the SLM end may use either matrix: follow the emulator's choice
+                    if m_.shape == c_.shape and np.allclose(m_, c_, rtol=1e-9, atol=1e-12):
+                        pick = c_
+            used_mats.append(pick)
         single_ops = [np.asarray(L.detach().numpy()) for L in data.lindblad_ops]
         if lind:
-            rho0 = None if psi0 is None else np.outer(psi0, psi0.conj())
+            rho0 = rho0_mixed if rho0_mixed is not None else (None if psi0 is None else np.outer(psi0, psi0.conj()))
             states, hams = seqs.ref_lindblad_run(om, de, ph, T, lambda k: used_mats[k], single_ops, rho0=rho0)
         else:
             states, hams = seqs.ref_unitary_run(om, de, ph, T, lambda k: used_mats[k], psi0=psi0)
@@ -152,7 +177,7 @@ def sv_worker(job: dict) -> dict:
                     if abs(e["dt"] - (T[k + 1] - T[k]) * 1e-3) <= 1e-15 + 1e-12 * abs(e["dt"]):
                         dti = k if (dti == -1 or k == step_i) else dti
                 m = np.asarray(e["matrix"], dtype=float)
-                mat_ok = step_i < K and any(np.array_equal(m, a) for a in allowed_mats(step_i))
+                mat_ok = step_i < K and any(m.shape == a.shape and np.allclose(m, a, rtol=1e-9, atol=1e-12) for a in allowed_mats(step_i))
                 trace.append({"ev": "step", "rowIdx": row, "dtIdx": dti, "matOK": bool(mat_ok), "kind": e["kind"]})
                 step_i += 1
             elif e["ev"] == "sv_evolve":
